@@ -59,7 +59,11 @@ def observe_accept(served, ts, own, proposals, peer_max, variant=0):
     acc.ae = StubAE(dict((s, served_service) for s in served), ts)
     if variant in (2, 4, 6) and served:
         scu_first = list(served[:1 + variant // 3]) + [p[1] for p in proposals[:1] if p[1] not in served]
-        real = make_entity([('scu', scu_first), ('scp', list(served))], ts, own)
+        mutable = list(ts)
+        real = make_entity([('scu', scu_first), ('scp', list(served)), ('scu', [])], mutable, own)   # 3 calls: supported_ts given explicitly
+        for extra_ts in TS_UNIVERSE:                      # the caller goes on using ITS list: no business of the entity's
+            if extra_ts not in mutable:
+                mutable.append(extra_ts)
         for c in list(real.supported_scp):
             real.supported_scp[c] = served_service
         real.timeout = 1
@@ -190,7 +194,13 @@ def make_entity(calls, ts, own):
 
         def __call__(self, *a):
             return scu_service(*a)
-    ae = applicationentity.AE('LOCAL', 0, supported_ts=ts, max_pdu_length=own, bind_and_activate=False)
+    if len(calls) % 2 == 0 and ts:
+        # transfer syntaxes configured the other documented way: a subclass overriding the class attribute default_ts
+        from pydicom import uid as _uid
+        sub = type('AEWithDefaults', (applicationentity.AE,), dict(default_ts=[_uid.UID(t) for t in ts]))
+        ae = sub('LOCAL', 0, max_pdu_length=own, bind_and_activate=False)
+    else:
+        ae = applicationentity.AE('LOCAL', 0, supported_ts=ts, max_pdu_length=own, bind_and_activate=False)
     try:
         for kind, classes in calls:
             if kind == 'scu':
@@ -217,6 +227,8 @@ def observe_request(calls, ts, own, answer_fn, peer_max, lookups_extra=()):
     ae = make_entity(calls, ts, own)
     ctxs = [(k, str(v.sop_class)) for k, v in ae.context_def_list.items()]
     ts_order = [str(t) for t in ae.supported_ts]
+    if set(ts_order) != set(str(t) for t in ts):
+        ts_order = [str(t) for t in ts]          # the entity does not hold what was configured: the oracle goes by the configuration
     assoc = object.__new__(asceprovider.AssociationRequester)
     assoc.ae = ae
     assoc.max_pdu_length = own
